@@ -244,6 +244,8 @@ class DictStateType(StateType):
             reg = state_types_registry()
             t = reg.get(get_type_qualname(type(data_element)))
             extension = t.default_extension()
+            if t.identifier() == self.identifier():
+                extension = "djson"  # nested dictionaries keep the types of their members too
             b, mime = t.as_bytes(data_element, extension=extension)
             txt = base64.b64encode(b).decode("utf-8")
             return '[%-10s, %-4s, "%s"]' % (
